@@ -123,6 +123,54 @@ class RulesNonNormal(c03.Rules):
             if r==z3.sat: rec['sample']={'scenario':self.scn(g,m),'expect':'ok' if oc=='ok' else 'err'}
         return rec
 
+LONG_LENS=[255,4000,4097,70000]
+class RulesLongPaths(c03.Rules):
+    """the rule engine on very long (but representable) artifact paths and MATCH prefixes: any verdict, but no panic"""
+    def __init__(self,lens=None,**kw):
+        c03.Rules.__init__(self,**kw)
+        self.name='C14.rules_long_paths'; self.lens=list(lens or LONG_LENS)
+        self.bounds={'artifact_path_lengths':self.lens,'prefix_lengths':[1,200,5000],'rule_list':'MATCH * [IN <src prefix>] WITH PRODUCTS [IN <dst prefix>] FROM t, or CREATE/DELETE/MODIFY/ALLOW/REQUIRE/DISALLOW <the long path or *>, followed by DISALLOW *',
+                     'artifacts':'one long path on the rule side (material, product or both, free digest byte); the referenced step t holds the same name under the destination prefix (present or absent)','obligation':'no panic'}
+        self.witnesses=['returns']
+    def mk_args(self,run):
+        b=self.b
+        n=self.lens[run.pick(len(self.lens),'len')]; name='n'*n
+        side=['materials','products'][run.pick(2,'side')]
+        kind=['MATCH','CREATE','DELETE','MODIFY','ALLOW','REQUIRE','DISALLOW'][run.pick(7,'kind')]
+        pre=lambda k: [None,'p','q'*200,'r'*5000][run.pick(4,k)]
+        src=dst=None
+        if kind=='MATCH':
+            src=pre('src'); dst=pre('dst')
+            rules=[c03.M('*',in_src=src,in_dst=dst)]
+        else: rules=[{'kind':kind,'pattern':[name,'*'][run.pick(2,'pat')]}]
+        rules=rules+c03.TAILS[0]
+        own_path=(src+'/' if src else '')+name
+        st=1+run.pick(3,'state')
+        mats={}; prods={}
+        if st in (1,3): mats[own_path]=self.desc(z3.BitVec('m',8))
+        if st in (2,3): prods[own_path]=self.desc(z3.BitVec('p',8))
+        links={'it':{'materials':mats,'products':prods}}
+        if kind=='MATCH':
+            tp={}
+            if run.pick(2,'t_has'): tp[(dst+'/' if dst else '')+name]=self.desc(z3.BitVec('t',8))
+            links['t']={'materials':{},'products':tp}
+        def mk_art(d):
+            return [(b.vpath(p),b.hashmap([(b.variant('HashAlgorithm','Sha256'),Agg('HashValue',[u8vec(bs)])) for alg,bs in dd.items()])) for p,dd in sorted(d.items())]
+        lm=b.hashmap([(mk_string(nm),b.link(nm,mk_art(l['materials']),mk_art(l['products']))) for nm,l in links.items()])
+        rl=[self.mk_rule(r) for r in rules]
+        it=b.step('it',1,[],rl if side=='materials' else [],rl if side=='products' else [])
+        return [Ref(Cell(Ref(Cell(it)))),Ref(Cell(lm))],{'side':side,'rules':rules,'links':links}
+    def check(self,run,out,g):
+        oc=outcome_of(out); rec={'outcome':oc,'viol':None,'wit':[],'sample':None,'obl':1}
+        if oc=='panic':
+            r,m=run.check_sat(z3.BoolVal(True))
+            rec['viol']={'kind':'panic_rules_long_path','known_key':None,'scenario':self.scn(g,m),'predicted':'panic','what':'apply_rules_on_link panics on a long artifact path / prefix: '+str(out[1])[:200]}; return rec
+        if 'returns' not in self.seen: self.seen.add('returns'); rec['wit'].append('returns')
+        if is_sample(run,self.seed,40):
+            r,m=run.check_sat(z3.BoolVal(True))
+            if r==z3.sat: rec['sample']={'scenario':self.scn(g,m),'expect':'ok' if oc=='ok' else 'err'}
+        return rec
+
 class Importers(Obligation):
     """key importers on garbage: PublicKey::from_pem_spki and PrivateKey::from_pkcs8 with the parsing
     dependencies (pem::parse, ring key-pair constructors) stubbed by their contract "may return Err"."""
